@@ -4,8 +4,12 @@
 //              bytes (cut < 0: whole) with bit number flip inverted (flip < 0: none), followed by the given bytes
 //              action: 0 client aborts, 1 client closes gracefully, 2 client waits for the server to hang up (bounded)
 //        |  ( 1 request split )                 the request over a completed handshake, and the same over plain TCP
+//        |  ( 2 request )                       one-shot client (writes the request and closes at once) through a relay that
+//              coalesces everything after the client's first flight into ONE segment: the server reads the end of the
+//              handshake, the request and the close in a single read; the same over plain TCP
 //   obs  ::= ( 0 handlerCalls middlewareCalls clientSawHttp liveAfter )
 //        |  ( 1 encrypted (calls log status body) (calls log status body) )       TLS first, plain second
+//        |  ( 2 encrypted (calls log) (calls log) )
 #include <QCoreApplication>
 #include <QElapsedTimer>
 #include <QFile>
@@ -144,7 +148,7 @@ Exchange exchange(bool tls, const QByteArray &request, int split)
         int k = qBound(0, split, request.size());
         client.write(request.left(k)); client.flush(); pumpMs(15);
         client.write(request.mid(k)); client.flush();
-        pumpTill([&]() { return client.state() == QAbstractSocket::UnconnectedState; }, 400);
+        pumpTill([&]() { return client.state() == QAbstractSocket::UnconnectedState; }, 3000);
     }
     client.abort();
     pumpMs(20);
@@ -157,9 +161,72 @@ Exchange exchange(bool tls, const QByteArray &request, int split)
 }
 }
 
+namespace {
+// one-shot exchange through a coalescing relay
+Exchange oneShot(bool tls, const QByteArray &request)
+{
+    Log log;
+    QObject scope;
+    LogHandler handler(&log, &scope);
+    Server server(&handler);
+    if (tls) server.setSslConfiguration(tlsConfig());
+    if (!server.listen(QHostAddress::LocalHost, 0)) throw std::runtime_error("nolisten");
+    QTcpServer relay;
+    relay.listen(QHostAddress::LocalHost, 0);
+    QTcpSocket *down = nullptr;          // relay's side towards the client
+    QTcpSocket up;                       // relay's side towards the server
+    QByteArray held;
+    bool first = true, downClosed = false;
+    auto flush = [&]() { if (!held.isEmpty()) { up.write(held); up.flush(); held.clear(); } };
+    QObject::connect(&up, &QTcpSocket::readyRead, [&]() { if (down && down->state() == QAbstractSocket::ConnectedState) { down->write(up.readAll()); down->flush(); } else up.readAll(); });
+    QObject::connect(&relay, &QTcpServer::newConnection, [&]() {
+        down = relay.nextPendingConnection();
+        up.connectToHost(QHostAddress::LocalHost, server.serverPort());
+        QObject::connect(down, &QTcpSocket::readyRead, [&]() {
+            held += down->readAll();
+            if (first && up.state() == QAbstractSocket::ConnectedState) { first = false; flush(); }   // the first flight goes through at once
+        });
+        QObject::connect(&up, &QTcpSocket::connected, [&]() { if (first && !held.isEmpty()) { first = false; flush(); } });
+        QObject::connect(down, &QTcpSocket::disconnected, [&]() { held += down->readAll(); downClosed = true; flush(); up.disconnectFromHost(); });
+    });
+    QSslSocket client;
+    client.setPeerVerifyMode(QSslSocket::VerifyNone);
+    bool enc = false;
+    if (tls) {
+        client.connectToHostEncrypted("127.0.0.1", relay.serverPort());
+        enc = pumpTill([&]() { return client.isEncrypted(); }, 5000);
+    } else {
+        client.connectToHost(QHostAddress::LocalHost, relay.serverPort());
+        pumpTill([&]() { return client.state() == QAbstractSocket::ConnectedState; }, 3000);
+        first = false;      // plain TCP has no handshake flight: everything is coalesced
+    }
+    if (!tls || enc) {
+        client.write(request);
+        client.disconnectFromHost();
+        pumpTill([&]() { return client.state() == QAbstractSocket::UnconnectedState; }, 1000);
+    }
+    pumpTill([&]() { return downClosed; }, 500);
+    pumpMs(80);
+    client.abort();
+    if (down) down->deleteLater();
+    up.abort();
+    pumpMs(20);
+    Exchange e;
+    e.calls = log.handler; e.log = log.entries; e.encrypted = enc; e.status = 0;
+    return e;
+}
+}
+
 static Val run_tls(const Val &c)
 {
     int mode = int(c.at(0).asInt());
+    if (mode == 2) {
+        QByteArray request = c.at(1).asBytes();
+        Exchange a = oneShot(true, request);
+        Exchange b = oneShot(false, request);
+        auto pack = [](const Exchange &e) { return Val::List({Val::Int(e.calls), e.log}); };
+        return Val::List({Val::Int(2), Val::Bool(a.encrypted), pack(a), pack(b)});
+    }
     if (mode == 1) {
         QByteArray request = c.at(1).asBytes();
         int split = int(c.at(2).asInt());
